@@ -81,7 +81,7 @@ void drv_case (uint64_t idx) {
         ri_init (&ri, mc.ctx, mh_exts, mh_n_exts, 20000); memset (res, 0, sizeof res);
         REF[i].st = mh_ref_call (&ri, f, &a, res); REF[i].low32 = res[0].taint; REF[i].ret = res[0].u.i; REF[i].mem = mem_obs (fam, l); REF[i].log = mh_log_hash (); REF[i].nlog = mh_log_n;
         if (REF[i].st == RI_UNSUPPORTED || REF[i].st == RI_BAD) { vp_fail ("harness-refinterp", "reference interpreter cannot run the program: %s", ri.why); ri_finish (&ri); mh_close (&mc); return; }
-        if (REF[i].st == RI_OK) ok++;
+        if (REF[i].st == RI_OK) ok++; else if (vp_verbose) fprintf (stderr, "refinterp input %d: %s: %s\n", i, ri_status_name (REF[i].st), ri.why);
         ri_finish (&ri);
       }
       if (!ok) { vp_count ("programs_undefined_on_every_input", 1); mh_close (&mc); return; }
